@@ -5,10 +5,10 @@
 WT=$1; SD=$2; PROP=$3; shift 3; CHECKS=${@:-$PROP}
 cd $WT || exit 2
 git checkout -q -- . ; git checkout -q --detach $(git -C /repo rev-parse HEAD) 2>/dev/null; git status --short | grep -v '^??' && { echo "worktree dirty"; exit 2; }
-echo "== clean demo"; PYTHONPATH=$WT timeout 900 /venv/bin/python $SD/demo.py > /tmp/vs_clean.log 2>&1; echo "exit $?"
+echo "== clean demo"; PYTHONPATH=$WT timeout 900 /venv/bin/python $SD/demo.py > /tmp/vs_clean_$(basename $WT).log 2>&1; echo "exit $?"
 git apply $SD/patch.diff || { echo "patch does not apply"; exit 2; }
 echo "== patched suite"; timeout 1800 /venv/bin/python -m pytest -q -p no:cacheprovider --timeout=900 --continue-on-collection-errors 2>&1 | tail -1
-echo "== patched demo"; PYTHONPATH=$WT timeout 900 /venv/bin/python $SD/demo.py > /tmp/vs_patched.log 2>&1; echo "exit $?"; tail -2 /tmp/vs_patched.log
+echo "== patched demo"; PYTHONPATH=$WT timeout 900 /venv/bin/python $SD/demo.py > /tmp/vs_patched_$(basename $WT).log 2>&1; echo "exit $?"; tail -2 /tmp/vs_patched_$(basename $WT).log
 for c in $CHECKS; do
   echo "== check $c (patched)"; (cd /verif && STBEM_REPO=$WT timeout 3000 ./check $c --tier quick 2>&1 | grep "VIOLATION\|KNOWN\|^OK\|MACHINERY\|what:" | head -6)
 done
